@@ -121,6 +121,8 @@ type Run struct {
 	declared int
 	defined  []bool
 	pc       []*Node
+	pend     []pendAssert
+	lits     map[int32]bool
 	inputs   []InputRec
 	concrete []uint64 // replay: input values by index (concrete mode)
 	chooses  []ChooseRec
@@ -226,8 +228,35 @@ func (r *Run) define(n *Node) {
 	}
 }
 
+// known returns +1 if n is already asserted on this path, -1 if its negation is, 0 otherwise.
+func (r *Run) known(n *Node) int {
+	if v, ok := r.lits[n.id]; ok {
+		if v {
+			return 1
+		}
+		return -1
+	}
+	return 0
+}
+
+func (r *Run) noteLit(n *Node) {
+	r.lits[n.id] = true
+	switch n.op {
+	case OpBNot:
+		r.lits[n.a.id] = false
+		if n.a.op == OpBOr {
+			r.noteLit(r.pool.BNot(n.a.a))
+			r.noteLit(r.pool.BNot(n.a.b))
+		}
+	case OpBAnd:
+		r.noteLit(n.a)
+		r.noteLit(n.b)
+	}
+}
+
 func (r *Run) assertNode(n *Node) {
 	r.pc = append(r.pc, n)
+	r.noteLit(n)
 	if r.sol == nil {
 		return
 	}
@@ -275,6 +304,9 @@ func (r *Run) branch(c *Node, fr *frame) bool {
 		return c.k != 0
 	}
 	p := r.pool
+	if k := r.known(c); k != 0 {
+		return k > 0
+	}
 	if r.pos < len(r.prefix) {
 		d := r.prefix[r.pos]
 		if d.Kind != dBranch {
@@ -411,11 +443,17 @@ func (r *Run) choose(n int, label string) int {
 }
 
 func (r *Run) assume(c Int) {
+	r.flushAsserts()
 	if c.N == nil {
 		if c.C == 0 {
 			panic(abortPath{"assume(false)"})
 		}
 		return
+	}
+	if k := r.known(c.N); k > 0 {
+		return
+	} else if k < 0 {
+		panic(abortPath{"assume infeasible"})
 	}
 	if !r.evalBool(c.N) {
 		res, m := r.query(c.N)
@@ -457,7 +495,18 @@ func (r *Run) recordCex(kind, id, msg string, model []uint64, fr *frame) {
 	r.cexs = append(r.cexs, cx)
 }
 
-// assert checks PC ⇒ c.
+var assertBatch = 1
+
+type pendAssert struct {
+	n     *Node
+	id    string
+	msg   string
+	stack string
+}
+
+// assert records the obligation PC ⇒ c. Symbolic obligations are collected and discharged together
+// (one query per batch): at every Assume, and when the path ends. They are NOT added to the path
+// condition, so inputs that violate one still flow down whatever path they take.
 func (r *Run) assert(c Int, id, msg string, fr *frame) {
 	r.asserts[id]++
 	r.obligations++
@@ -470,22 +519,109 @@ func (r *Run) assert(c Int, id, msg string, fr *frame) {
 		r.discharged++
 		return
 	}
-	res, m := r.query(r.pool.BNot(c.N))
-	switch res {
-	case Sat:
-		r.recordCex("assert", id, msg, m, fr)
-	case Unsat:
+	if r.known(c.N) > 0 {
 		r.discharged++
+		return
 	}
-	// continue on the side where it holds
-	if !r.evalBool(c.N) {
-		res2, m2 := r.query(c.N)
-		if res2 != Sat {
-			panic(abortPath{"assertion fails on every continuation"})
+	if assertBatch <= 1 {
+		// immediate: one query per obligation
+		res, m := r.query(r.pool.BNot(c.N))
+		switch res {
+		case Sat:
+			r.recordCex("assert", id, msg, m, fr)
+		case Unsat:
+			r.discharged++
 		}
-		r.model = m2
+		// continue on the side where it holds
+		if !r.evalBool(c.N) {
+			res2, m2 := r.query(c.N)
+			if res2 != Sat {
+				panic(abortPath{"assertion fails on every continuation"})
+			}
+			r.model = m2
+		}
+		r.assertNode(c.N)
+		return
 	}
-	r.assertNode(c.N)
+	st := ""
+	if fr != nil {
+		st = fr.stack()
+	}
+	r.pend = append(r.pend, pendAssert{c.N, id, msg, st})
+	if len(r.pend) >= assertBatch {
+		r.flushAsserts()
+	}
+}
+
+// flushAsserts decides all pending obligations with one query: PC ∧ (¬c1 ∨ … ∨ ¬cn).
+func (r *Run) flushAsserts() {
+	if len(r.pend) == 0 || r.sol == nil {
+		r.pend = nil
+		return
+	}
+	pend := r.pend
+	r.pend = nil
+	p := r.pool
+	// fast path: the current model already violates one of them
+	for _, pa := range pend {
+		if !r.evalBool(pa.n) {
+			r.recordCexStack("assert", pa.id, pa.msg, r.model, pa.stack)
+		}
+	}
+	bad := p.ff
+	for _, pa := range pend {
+		bad = p.BOr(bad, p.BNot(pa.n))
+	}
+	for {
+		res, m := r.query(bad)
+		switch res {
+		case Unsat:
+			r.discharged += int64(len(pend))
+			return
+		case Unknown:
+			// the batch was too hard: decide its members one by one
+			if len(r.inconcl) > 0 && len(pend) > 1 {
+				r.inconcl = r.inconcl[:len(r.inconcl)-1]
+				for _, pa := range pend {
+					res1, m1 := r.query(p.BNot(pa.n))
+					switch res1 {
+					case Sat:
+						r.recordCexStack("assert", pa.id, pa.msg, m1, pa.stack)
+					case Unsat:
+						r.discharged++
+					}
+				}
+			}
+			return
+		}
+		// sat: report every obligation the model violates, then look for violations of the others
+		rest := pend[:0:0]
+		bad = p.ff
+		found := false
+		for _, pa := range pend {
+			if p.Eval(pa.n, m) == 0 {
+				r.recordCexStack("assert", pa.id, pa.msg, m, pa.stack)
+				found = true
+			} else {
+				rest = append(rest, pa)
+				bad = p.BOr(bad, p.BNot(pa.n))
+			}
+		}
+		if !found || len(rest) == 0 {
+			return
+		}
+		pend = rest
+	}
+}
+
+func (r *Run) recordCexStack(kind, id, msg string, model []uint64, stack string) {
+	for _, c := range r.cexs {
+		if c.Assertion == id {
+			return
+		}
+	}
+	r.recordCex(kind, id, msg, model, nil)
+	r.cexs[len(r.cexs)-1].Stack = stack
 }
 
 func (r *Run) newInput(w uint8, name string) Int {
@@ -676,7 +812,7 @@ func (j *Job) merge(r *Run) {
 func (j *Job) runOne(w *Worker, it *WorkItem) (r *Run) {
 	r = &Run{P: j.P, job: j, w: w, pool: NewPool(), sol: w.sol, prefix: it.decs, model: it.model,
 		globals: map[*ssa.Global]*Obj{}, lazyGlobals: map[string]bool{}, fnCount: map[string]int64{}, reach: map[string]int64{},
-		asserts: map[string]int64{}, knownHits: map[string]int64{}, maxSteps: j.MaxSteps, unwind: j.Unwind, mapRotate: j.MapRot,
+		lits: map[int32]bool{}, asserts: map[string]int64{}, knownHits: map[string]int64{}, maxSteps: j.MaxSteps, unwind: j.Unwind, mapRotate: j.MapRot,
 		locks: map[lockKey]*lockState{}, onces: map[lockKey]*onceState{}, pools: map[lockKey][]Value{}}
 	if r.maxSteps == 0 {
 		r.maxSteps = 200_000_000
@@ -700,6 +836,16 @@ func (j *Job) runOne(w *Worker, it *WorkItem) (r *Run) {
 	defer func() {
 		p := recover()
 		r.killGoroutines()
+		if _, isEngErr := p.(engineError); !isEngErr {
+			func() {
+				defer func() {
+					if q := recover(); q != nil {
+						r.inconcl = append(r.inconcl, fmt.Sprintf("flushing assertions failed: %v", q))
+					}
+				}()
+				r.flushAsserts()
+			}()
+		}
 		if r.sol != nil {
 			r.sol.Pop()
 			r.sol.flush()
